@@ -155,7 +155,15 @@ class LedgerFactory:
     """What leaves the factory + what is installed: issuer (root of trust), device key and its
     issuer certificate, application hashes, authorized signer."""
 
-    def __init__(self, rng, legacy_signer=False, profile="seeded"):
+    def __init__(self, rng, legacy_signer=False, profile="seeded", ui_version="5.4",
+                 signer_version=None):
+        # the UI can never be replaced while the Signer is upgraded: the two versions are
+        # independent (default: UI 5.4 with Signer 5.4, or the legacy Signer 5.3)
+        self.ui_version = ui_version
+        self.signer_version = signer_version or ("5.3" if legacy_signer else "5.4")
+        self.ui_header = b"HSM:UI:" + self.ui_version.encode()
+        self.signer_header = (b"HSM:SIGNER:" + self.signer_version.encode() if legacy_signer
+                              else b"POWHSM:" + self.signer_version.encode() + b"::")
         self.issuer = k1.Key.from_rng(rng)
         self.device = k1.Key.from_rng(rng)
         self.cert_header = rng.nz_bytes(10)
@@ -276,7 +284,8 @@ class GenuineLedger(Device, Alterable, PubkeySwap):
         if cmd == 0x43:
             return bytes([0x80, MODE_BOOTLOADER])
         if cmd == 0x06:
-            return bytes([0x80, 1 if self.onboarded else 0, 5, 4, 0])
+            return bytes([0x80, 1 if self.onboarded else 0, int(self.f.ui_version[0]),
+                          int(self.f.ui_version[2]), 0])
         if cmd == 0x02:
             return bytes(apdu)
         if cmd == 0x45:
@@ -341,7 +350,7 @@ class GenuineLedger(Device, Alterable, PubkeySwap):
             if self.ui_att is not None or len(data) != 32:
                 self.ui_att = None
                 raise SW(UI_PROT_INVALID)
-            self.ui_att = L.ui_message(L.UI_HEADER, data, self.wallet(L.UI_PATH).pub33,
+            self.ui_att = L.ui_message(self.f.ui_header, data, self.wallet(L.UI_PATH).pub33,
                                        self.f.signer_hash, self.signer_iteration)
             return bytes([0x80, 0x50, 0x01])
         if self.ui_att is None:
@@ -423,7 +432,7 @@ class GenuineLedger(Device, Alterable, PubkeySwap):
         if cmd == 0x43:
             return bytes([0x80, MODE_SIGNER])
         if cmd == 0x06:
-            return bytes([0x80, 1, 5, 3 if self.f.legacy_signer else 4, 0])
+            return bytes([0x80, 1, int(self.f.signer_version[0]), int(self.f.signer_version[2]), 0])
         if cmd == 0x04:
             path = bytes(apdu[2:])
             for i, p in enumerate(L.PATHS):
@@ -446,9 +455,9 @@ class GenuineLedger(Device, Alterable, PubkeySwap):
                 self.sg_att = None
                 raise SW(ATT_PROT_INVALID)
             if self.f.legacy_signer:
-                msg = L.legacy_message(L.LEGACY_HEADER, self.keys_hash())
+                msg = L.legacy_message(self.f.signer_header, self.keys_hash())
             else:
-                msg = L.powhsm_message(L.POWHSM_HEADER, b"led", data, self.keys_hash(),
+                msg = L.powhsm_message(self.f.signer_header, b"led", data, self.keys_hash(),
                                        self.f.best_block, self.f.last_tx_hash[:8], 0)
             if self.endorsement is None:
                 raise SW(ATT_INTERNAL)
@@ -479,7 +488,9 @@ GenuineLedger.page_error = UI_PROT_INVALID
 class SgxPlatform:
     """PCK hierarchy + quoting enclave + powHSM enclave + its sealed wallet."""
 
-    def __init__(self, rng, auth_len=32, chain_len=3, profile="seeded", window=None):
+    def __init__(self, rng, auth_len=32, chain_len=3, profile="seeded", window=None,
+                 version="5.4"):
+        self.version = version
         self.h = S.Hierarchy(rng, 0, *(window or (None, None)))
         self.enclave = S.Enclave(rng, self.h, auth_len, chain_len)
         self.wallet = {p: k1.Key.from_rng(rng) for p in L.PATHS}
@@ -496,7 +507,7 @@ class SgxPlatform:
         self.keys_hash = h.digest()
 
     def message(self, ud):
-        return L.powhsm_message(L.POWHSM_HEADER, b"sgx", ud, self.keys_hash, self.best_block,
+        return L.powhsm_message(b"POWHSM:" + self.version.encode() + b"::", b"sgx", ud, self.keys_hash, self.best_block,
                                 self.last_tx_hash[:8], 0)
 
 
@@ -565,7 +576,7 @@ class GenuineSgx(Device, Alterable, PubkeySwap):
         if cmd == 0x43:
             return bytes([0x80, MODE_BOOTLOADER if self.locked else MODE_SIGNER])
         if cmd == 0x06:
-            return bytes([0x80, 1, 5, 4, 0])
+            return bytes([0x80, 1, int(self.p.version[0]), int(self.p.version[2]), 0])
         if cmd == 0xA4:
             return bytes(apdu)
         if cmd == 0xA2:
